@@ -31,7 +31,7 @@ RULE = (
 )
 ASSUMPTIONS = ["dictionary inputs have every key 0..n (as create_bisc_input / read_bisc_file produce)", "oracle: vf/oracle/mesh.py"]
 REQUIRED = ["calls.bisc", "calls.perm_contains_cl_patts_many_shadings", "calls.run_clean_up", "calls.to_sg_format", "calls.maximal_mesh_pattern_of_occurrence",
-            "sound.perms_checked", "complete.perms_checked", "irredundant.cells_checked", "cleanup.bases_checked", "representations.compared", "private_containment.checked", "repeat_calls.compared", "default_n.compared",
+            "sound.perms_checked", "complete.perms_checked", "irredundant.cells_checked", "cleanup.bases_checked", "representations.compared", "private_containment.checked", "repeat_calls.compared", "default_n.compared", "sparse.runs",
             "auto_bisc.runs", "auto_bisc.branch.basis_fails_longer_bad_perms", "auto_bisc.branch.basis_fails_good_perms", "auto_bisc.branch.more_patterns_needed"]
 MIN_NONTRIVIAL = 100
 CTX = None
@@ -230,10 +230,15 @@ def teardown(ctx):
 
 
 # ---- replayable check ----------------------------------------------------------------------------------------------------
-def chk_run(ctx, members, m, n):
-    """members: list of permutations (lists) = the finite set A"""
-    CURRENT[0] = [members, m, n]
+def chk_run(ctx, members, m, n, light=False):
+    """members: list of permutations (lists) = the finite set A.  light: only the dictionary form is mined (the monitor judges
+    soundness, completeness and irredundancy of its output); used for the many small sparse sets"""
+    CURRENT[0] = [members, m, n, light]
     try:
+        if light:
+            with quiet():
+                BM.bisc({i: [Perm(p) for p in members if len(p) == i] for i in range(n + 1)}, m, n)
+            return
         A_list = [Perm(p) for p in members]
         A_dict = {i: [Perm(p) for p in members if len(p) == i] for i in range(n + 1)}
         mem = {tuple(p) for p in members}
@@ -274,10 +279,22 @@ def chk_run(ctx, members, m, n):
                 continue
             sub_list = [Perm(p) for p in sub_members]
             sub_dict = {i: [Perm(p) for p in sub_members if len(p) == i] for i in range(L + 1)}
+            import collections
+
+            dd = collections.defaultdict(list)  # the dictionary kind the library builds itself: only the lengths that occur
+            for q in sub_list:
+                dd[len(q)].append(q)
             with quiet():
                 d_list, d_dict, e_list = BM.bisc(sub_list, m), BM.bisc(sub_dict, m), BM.bisc(sub_list, m, L)
+                try:
+                    d_dd = BM.bisc(dd, m, L)
+                except Exception as exc:  # pylint: disable=broad-except
+                    report("run", CURRENT[0], f"bisc on a defaultdict(list) holding only the lengths that occur raised {exc!r}")
+                    d_dd = e_list
             ctx.ev()
             ctx.count("default_n.compared")
+            if not same(d_dd, e_list):
+                report("run", CURRENT[0], "bisc on a defaultdict(list) holding only the lengths that occur gives another output than the list form")
             if not (same(d_list, e_list) and same(d_dict, e_list)):
                 report("run", CURRENT[0], f"bisc with n omitted (list without length {drop}: {len(sg_plain(d_list))} patterns, dictionary: {len(sg_plain(d_dict))}) differs from "
                        f"n = {L}, the longest length given ({len(sg_plain(e_list))} patterns)")
@@ -402,6 +419,9 @@ def plan(tier, seed):
     runs = 1200 if tier == "quick" else 8000
     specs = [{"name": f"runs-{i}", "kind": "runs", "count": runs // 16, "nmax": 5 if tier == "quick" else 6} for i in range(16)]
     specs += [{"name": f"auto-{name}", "kind": "auto", "prop": name} for name in (("mesh-a", "mesh-c", "mesh-d") if tier == "quick" else AUTO_MESH)]
+    # sparse sets that are not pattern classes (few permutations, mostly of the top length): where minimal shadings are many
+    # and the search for them branches most
+    specs += [{"name": f"sparse-{i}", "kind": "sparse", "count": (4800 if tier == "quick" else 40000) // 16} for i in range(16)]
     if tier == "thorough":
         specs += [{"name": f"auto-{name}", "kind": "auto", "prop": name} for name in ("stack_sortable", "smooth", "west_2", "quick_sortable")]
     return specs
@@ -411,6 +431,16 @@ def run(ctx, spec):
     rng = ctx.rng
     if spec["kind"] == "auto":
         chk_auto(ctx, spec["prop"])
+        return
+    if spec["kind"] == "sparse":
+        for _ in range(spec["count"]):
+            n = rng.choice([4, 4, 5])
+            k = rng.randint(2, 6)
+            members = [rng.sample(range(n), n) for _ in range(k)] + [rng.sample(range(j), j) for j in range(n) if rng.random() < 0.3]
+            members = [list(t) for t in {tuple(x) for x in members}]
+            chk_run(ctx, members, 3, n, light=True)
+            ctx.count("sparse.runs")
+        ctx.sample({"sparse_A": members})
         return
     for _ in range(spec["count"]):
         n = rng.randint(2, spec["nmax"])
